@@ -31,6 +31,7 @@ def main():
     ap.add_argument("pid")
     ap.add_argument("--tier", default=os.environ.get("VERIF_TIER", "quick"))
     ap.add_argument("--replay")
+    ap.add_argument("--worker", type=int, default=None, help="internal: evaluate the generated cases for this seed only, print JSON")
     args = ap.parse_args()
     pid = args.pid
     tier = args.tier if args.tier in ("quick", "thorough") else "quick"
@@ -39,6 +40,8 @@ def main():
     except ValueError:
         seed = 0
     t0 = time.time()
+    if args.worker is not None:
+        sys.exit(worker(pid, tier, args.worker))
     try:
         rc = run(pid, tier, seed, args.replay, t0)
     except core.Infra as e:
@@ -107,44 +110,20 @@ def run(pid, tier, seed, replay, t0):
     ctx = props.Ctx(tables, seed, tier)
     if replay:
         return do_replay(pid, replay, ctx, props, impl, tables)
-    try:
-        cases = props.GENERATORS[pid](ctx)
-    except Exception as e:  # noqa  generator cannot even lay the definitions out
-        cases = []
-        broken.append({"kind": "generator", "what": "case generator failed on the current tables: %r" % (e,)})
-    direct = getattr(props, "direct_" + pid, None)
-    lines = [c["line"] for c in cases]
-    model_out = core.run_driver(lines) if lines else []
-    disagreements = []
-    failures = []
-    klasses = set()
-    evals = 0
-    agree = 0
-    samples = []
-    for c, mo in zip(cases, model_out):
-        io_ = impl.eval_guarded(c["line"], dict(c["extra"]))
-        evals += 1
-        mc = impl.canon_model(mo, tables)
-        ok = (mc == io_)
-        if ok:
-            agree += 1
-            if not (io_.startswith("lib:") and c["klass"].startswith("short")):
-                klasses.add(c["klass"])
-        else:
-            disagreements.append({"line": c["line"], "extra": c["extra"], "klass": c["klass"], "model": mc[:2000], "impl": io_[:2000], "oracle": c["oracle"]})
-        if c["oracle"]:
-            r = props.ORACLES[c["oracle"][0]](io_, c["oracle"][1], ctx)
-            if r:
-                failures.append({"line": c["line"], "extra": c["extra"], "klass": c["klass"], "what": r, "impl": io_[:2000], "oracle": c["oracle"]})
-        if len(samples) < 3 and ok:
-            samples.append({"op": c["line"][:300], "model": mc[:300], "impl": io_[:300], "class": c["klass"]})
-    dres = None
-    if direct:
-        dres = direct(ctx, impl)
-        evals += dres.get("evaluations", 0)
-        for f in dres.get("failures", []):
-            failures.append(f)
-        klasses |= set(dres.get("classes", []))
+    ev_ = evaluate(pid, ctx, tables, props, impl)
+    cases, disagreements, failures, klasses = ev_["cases"], ev_["disagreements"], ev_["failures"], ev_["klasses"]
+    evals, agree, samples, dres = ev_["evals"], ev_["agree"], ev_["samples"], ev_["dres"]
+    broken.extend(ev_["broken"])
+    soak = None
+    if tier == "thorough" and not broken and not failures:
+        soak = run_soak(pid, seed)
+        evals += soak["evaluations"]
+        agree += soak["agree"]
+        klasses |= set(soak["classes"])
+        disagreements.extend(soak["disagreements"])
+        failures.extend(soak["failures"])
+        if soak["infra"]:
+            broken.append({"kind": "soak", "what": "soak worker failed: " + soak["infra"][0][:300]})
     if disagreements:
         broken.append({"kind": "correspondence", "what": "%d of %d ops: model and implementation disagree" % (len(disagreements), len(cases)),
                        "first": disagreements[0]})
@@ -205,11 +184,12 @@ def run(pid, tier, seed, replay, t0):
             "distinct_nontrivial": len(klasses),
             "rule": "cases come from the seeded structure-aware generators of harness/props.py (cases_%s); a case is counted once per class label (message identity / strategy / stream shape / option combination) and only if model and implementation agreed on it and it is not a bare rejection of a too-short input" % pid,
             "samples": samples or [{"note": "no agreeing sample"}],
-            "correspondence_ops": len(cases), "disagreements": len(disagreements), "oracle_failures": len(failures),
+            "correspondence_ops": len(cases) + (soak["ops"] if soak else 0), "disagreements": len(disagreements), "oracle_failures": len(failures),
             "broken": broken[:5], "forbidden_constructs": rep["forbidden"], "leanchecker": rep.get("leanchecker"),
             "class_histogram": dict(collections.Counter(c["klass"].split(":")[0] for c in cases).most_common(12)),
             "direct": {k: v for k, v in (dres or {}).items() if k not in ("failures", "classes")},
             "exhaustive": False,
+            "soak": ({k: v for k, v in soak.items() if k not in ("classes", "disagreements", "failures")} if soak else None),
         },
         "assumptions": ["the hand-written model functions mirror the Python functions (validated by this run's correspondence, not proved)",
                         "tables are regenerated by the translator, not verified", "pinned standard facts in lean/Rtcm/Pinned and harness/pinned.py"],
@@ -220,8 +200,112 @@ def run(pid, tier, seed, replay, t0):
     for l in out_lines:
         print(l)
     print("%s %s: %d theorems (%d discharged), %d ops (%d agree), %d classes, %d oracle failures, %d broken, %.1fs" % (
-        pid, tier, len(names), discharged, len(cases), agree, len(klasses), len(failures), len(broken), time.time() - t0))
+        pid, tier, len(names), discharged, len(cases) + (soak["ops"] if soak else 0), agree, len(klasses), len(failures), len(broken), time.time() - t0))
     return 1 if violations else 0
+
+
+def evaluate(pid, ctx, tables, props, impl):
+    """generate the property's cases for ctx's seed / tier, run them through the model driver and
+    the implementation, apply the oracles"""
+    broken = []
+    try:
+        cases = props.GENERATORS[pid](ctx)
+    except Exception as e:  # noqa  generator cannot even lay the definitions out
+        cases = []
+        broken.append({"kind": "generator", "what": "case generator failed on the current tables: %r" % (e,)})
+    direct = getattr(props, "direct_" + pid, None)
+    lines = [c["line"] for c in cases]
+    model_out = core.run_driver(lines) if lines else []
+    disagreements = []
+    failures = []
+    klasses = set()
+    evals = 0
+    agree = 0
+    samples = []
+    for c, mo in zip(cases, model_out):
+        io_ = impl.eval_guarded(c["line"], dict(c["extra"]))
+        evals += 1
+        mc = impl.canon_model(mo, tables)
+        ok = (mc == io_)
+        if ok:
+            agree += 1
+            if not (io_.startswith("lib:") and c["klass"].startswith("short")):
+                klasses.add(c["klass"])
+        else:
+            disagreements.append({"line": c["line"], "extra": c["extra"], "klass": c["klass"], "model": mc[:2000], "impl": io_[:2000], "oracle": c["oracle"]})
+        if c["oracle"]:
+            r = props.ORACLES[c["oracle"][0]](io_, c["oracle"][1], ctx)
+            if r:
+                failures.append({"line": c["line"], "extra": c["extra"], "klass": c["klass"], "what": r, "impl": io_[:2000], "oracle": c["oracle"]})
+        if len(samples) < 3 and ok:
+            samples.append({"op": c["line"][:300], "model": mc[:300], "impl": io_[:300], "class": c["klass"]})
+    dres = None
+    if direct:
+        dres = direct(ctx, impl)
+        evals += dres.get("evaluations", 0)
+        for f in dres.get("failures", []):
+            failures.append(f)
+        klasses |= set(dres.get("classes", []))
+    return {"cases": cases, "disagreements": disagreements, "failures": failures, "klasses": klasses, "evals": evals,
+            "agree": agree, "samples": samples, "dres": dres, "broken": broken}
+
+
+def worker(pid, tier, wseed):
+    """one soak worker: no build, no audit; tables.json and the driver were produced by the parent"""
+    try:
+        tables = json.load(open(os.path.join(core.WORK, "tables.json")))
+        import impl
+        import props
+        ctx = props.Ctx(tables, wseed, tier)
+        r = evaluate(pid, ctx, tables, props, impl)
+        out = {"seed": wseed, "ops": len(r["cases"]), "evaluations": r["evals"], "agree": r["agree"], "classes": sorted(r["klasses"]),
+               "disagreements": r["disagreements"][:5], "n_disagreements": len(r["disagreements"]),
+               "failures": r["failures"][:5], "n_failures": len(r["failures"]), "broken": r["broken"]}
+        print("SOAK-RESULT " + json.dumps(out, default=str))
+        return 0
+    except Exception:  # noqa
+        traceback.print_exc()
+        return 2
+
+
+def run_soak(pid, seed):
+    """thorough tier: the same generators under further seeds, in parallel worker processes"""
+    import subprocess
+    k = int(os.environ.get("VERIF_SOAK", "12"))
+    procs = []
+    for i in range(k):
+        wseed = (seed + 1) * 7919 + i + 1
+        procs.append((wseed, subprocess.Popen([core.PY, os.path.abspath(__file__), pid, "--tier", "thorough", "--worker", str(wseed)],
+                                              stdout=subprocess.PIPE, stderr=subprocess.PIPE, text=True,
+                                              env=dict(os.environ, VERIF_REPO=core.REPO))))
+    res = {"workers": k, "seeds": [w for w, _ in procs], "ops": 0, "evaluations": 0, "agree": 0, "classes": set(),
+           "disagreements": [], "failures": [], "infra": []}
+    for wseed, p in procs:
+        try:
+            so, se = p.communicate(timeout=7200)
+        except subprocess.TimeoutExpired:
+            p.kill()
+            res["infra"].append("worker seed %d timed out" % wseed)
+            continue
+        line = [l for l in so.splitlines() if l.startswith("SOAK-RESULT ")]
+        if p.returncode != 0 or not line:
+            res["infra"].append("worker seed %d rc=%s: %s" % (wseed, p.returncode, (se or so)[-400:]))
+            continue
+        r = json.loads(line[-1][len("SOAK-RESULT "):])
+        res["ops"] += r["ops"]
+        res["evaluations"] += r["evaluations"]
+        res["agree"] += r["agree"]
+        res["classes"] |= set(r["classes"])
+        for d in r["disagreements"]:
+            d["soak_seed"] = wseed
+            res["disagreements"].append(d)
+        for f in r["failures"]:
+            f["soak_seed"] = wseed
+            res["failures"].append(f)
+        for b in r["broken"]:
+            res["infra"].append("worker seed %d: %s" % (wseed, b.get("what", "")))
+    res["classes"] = sorted(res["classes"])
+    return res
 
 
 def match_known(f, known):
